@@ -233,6 +233,17 @@ class ImportManager:
     module_name = inspect.getmodule(value).__name__
     if isinstance(value, enum.Enum):
       value_qualname = value.__class__.__qualname__ + "." + value.name
+    elif inspect.ismethod(value):
+      # `__qualname__` of a bound method names the class that defines the
+      # function; the value itself is reached through what it is bound to
+      # (e.g. a classmethod inherited by a subclass).
+      owner = value.__self__
+      if not inspect.isclass(owner):
+        raise ValueError(
+            f"Cannot add an import for {value!r}: it is bound to an instance."
+        )
+      module_name = inspect.getmodule(owner).__name__
+      value_qualname = f"{owner.__qualname__}.{value.__name__}"
     else:
       value_qualname = value.__qualname__
     if module_name == "__main__":
